@@ -7,14 +7,58 @@ file (otherwise the variant is skipped on that tree)."""
 CATALOGUE = {}
 
 
-def _add(pid, name, kind, path, old, new, expect=None):
+def _add(pid, name, kind, path, old, new, expect=None, nth=None):
+    edit = (path, old, new) if nth is None else (path, old, new, nth)
     CATALOGUE.setdefault(pid, []).append(
-        {'name': name, 'kind': kind, 'edits': [(path, old, new)], 'expect': expect})
+        {'name': name, 'kind': kind, 'edits': [edit], 'expect': expect})
 
 
-def mutant(pid, name, path, old, new, expect=None):
-    _add(pid, name, 'mutant', path, old, new, expect)
+def mutant(pid, name, path, old, new, expect=None, nth=None):
+    """`old` must occur exactly once in the file, or `nth` (0-based) selects the occurrence"""
+    _add(pid, name, 'mutant', path, old, new, expect, nth)
 
 
-def benign(pid, name, path, old, new):
-    _add(pid, name, 'benign', path, old, new)
+def benign(pid, name, path, old, new, nth=None):
+    _add(pid, name, 'benign', path, old, new, None, nth)
+
+
+def multi(pid, name, kind, edits, expect=None):
+    CATALOGUE.setdefault(pid, []).append({'name': name, 'kind': kind, 'edits': edits, 'expect': expect})
+
+
+DC = 'gearpy/mechanical_objects/dc_motor.py'
+
+# ------------------------------------------------------------------------------------------ C08
+mutant('C08', 'torque-deadzone-lt', DC, 'if abs(self.pwm) <= pwm_min:', 'if abs(self.pwm) < pwm_min:', 'C08.law.torque', nth=0)
+mutant('C08', 'current-deadzone-lt', DC, 'if abs(self.pwm) <= pwm_min:', 'if abs(self.pwm) < pwm_min:', 'C08.law.current', nth=1)
+mutant('C08', 'torque-neg-sign', DC, """(self.pwm*self.maximum_electric_current +
+                        self.no_load_electric_current)""", """(self.pwm*self.maximum_electric_current -
+                        self.no_load_electric_current)""", 'C08')
+mutant('C08', 'torque-w0-not-scaled', DC, 'no_load_speed = self.pwm*self.no_load_speed', 'no_load_speed = self.no_load_speed', 'C08', nth=0)
+mutant('C08', 'torque-nocurrent-plus', DC, """value=(1 - self.angular_speed /
+                       self.no_load_speed)*self.maximum_torque.value""", """value=(1 + self.angular_speed /
+                       self.no_load_speed)*self.maximum_torque.value""", 'C08.law.torque')
+mutant('C08', 'torque-unit-mismatch', DC, """value=(1 - self.angular_speed/no_load_speed)*maximum_torque.value,
+            unit=self.maximum_torque.unit""", """value=(1 - self.angular_speed/no_load_speed)*maximum_torque.to('Nm').value,
+            unit=self.maximum_torque.unit""", 'C08')
+mutant('C08', 'current-uses-Tmax', DC, "(self.driving_torque/maximum_torque) + no_load_electric_current", "(self.driving_torque/self.maximum_torque) + no_load_electric_current", 'C08.law.current')
+mutant('C08', 'current-neg-i0-sign', DC, "no_load_electric_current = -self.no_load_electric_current", "no_load_electric_current = self.no_load_electric_current", 'C08')
+mutant('C08', 'current-deadzone-formula', DC, "self.pwm/pwm_min*self.no_load_electric_current.to(", "self.pwm*pwm_min*self.no_load_electric_current.to(", 'C08.law.current')
+mutant('C08', 'torque-deadzone-nonzero', DC, "self.driving_torque = Torque(0, unit=self.maximum_torque.unit)", "self.driving_torque = Torque(1e-9, unit=self.maximum_torque.unit)", 'C08.law.torque')
+mutant('C08', 'torque-pos-threshold', DC, "elif self.pwm > pwm_min:", "elif self.pwm > 0:", None, nth=0)
+benign('C08', 'commute-product', DC, 'no_load_speed = self.pwm*self.no_load_speed', 'no_load_speed = self.no_load_speed*self.pwm', nth=0)
+benign('C08', 'rename-local', DC, """        pwm_min = self.no_load_electric_current/self.maximum_electric_current \\
+            if self.electric_current_is_computable else 0
+        if abs(self.pwm) <= pwm_min:
+            self.driving_torque = Torque(0, unit=self.maximum_torque.unit)
+            return
+        elif self.pwm > pwm_min:""", """        dead = self.no_load_electric_current/self.maximum_electric_current
+        if abs(self.pwm) <= dead:
+            self.driving_torque = Torque(0, unit=self.maximum_torque.unit)
+            return
+        elif self.pwm > dead:""")
+# not benign: `.value` is read in the unit of the leftmost operand, which becomes the no-load current's unit
+mutant('C08', 'current-value-read-in-other-unit', DC, """(maximum_electric_current - no_load_electric_current) *
+                (self.driving_torque/maximum_torque) + no_load_electric_current""", """no_load_electric_current + (self.driving_torque/maximum_torque) *
+                (maximum_electric_current - no_load_electric_current)""", 'C08')
+benign('C08', 'threshold-cross-multiplied', DC, 'if abs(self.pwm) <= pwm_min:', 'if abs(self.pwm)*self.maximum_electric_current <= self.no_load_electric_current:', nth=0)
